@@ -167,6 +167,10 @@ func deciderOf(v ssa.Value) string {
 	case *ssa.BinOp:
 		l, rr := deciderOf(x.X), deciderOf(x.Y)
 		op := x.Op.String()
+		if x.Op == token.EQL {
+			// == and != carry the same information once the rejecting edge is known: one spelling
+			op = "!="
+		}
 		if isNilConst(x.Y) || isNilConst(x.X) {
 			if l != "" && l != "load" && l != "value" {
 				return l + " " + op + " nil"
